@@ -249,6 +249,16 @@ def gen_config():
         c = cfg(role)
         c["removeDance"] = True
         out.append(dict(id="cfg-remove-%s" % role[0], cfg=c, steps=st))
+        # ... and unregisters its two all-types outgoing handlers after the logon: traffic still postpones the heartbeat (the
+        # session's own handlers are all still there)
+        for N in (2, 30):
+            T = N * 1000
+            p = Peer()
+            st = logged_on_prefix(role, N, p) + [act("rmhooks"), act("advance", ms=T // 2), act("send"), act("advance", ms=T // 2 + 1), p("hbt"),
+                                                 act("advance", ms=T // 2 + T // 10 + 1), p("hbt"), act("send"), p("testreq", id=[82]), act("advance", ms=T + T // 10 + 1)]
+            c = cfg(role, hbmin=1, hbmax=60, hbcfg=N)
+            c["removeDance"] = True
+            out.append(dict(id="cfg-rmhooks-%s-%d" % (role[0], N), cfg=c, steps=st))
     # Stop() / Logout() whose Logout cannot be saved: the context is still cancelled at the close timeout
     for role in ("acceptor", "initiator"):
         for call in ("stop", "llogout"):
@@ -358,7 +368,7 @@ def gen_lookalike():
     # of a framing / header field (the BeginString field as a whole, '34=', '9='): the Reject still refers to the message's own number
     # a longer tag ending in 35 / 34 with a plausible value AHEAD of the genuine MsgType / MsgSeqNum field, before and after logon
     for role in ("acceptor", "initiator"):
-        for ex in (5, 6, 7, 8):
+        for ex in (5, 6, 7, 8, 9):
             p = Peer()
             st = [act("run"), p("app", extra=ex), p("unknown", extra=ex), p("hbt", extra=ex), p("testreq", id=[73], extra=ex), p("logon", hb=30, extra=ex),
                   p("app", extra=ex), p("testreq", id=[74], extra=ex), p("hbt", extra=ex), p("resend", b=1, e=0, extra=ex), p("logout", extra=ex), p("logon", hb=30, extra=ex)]
@@ -599,7 +609,13 @@ def run_driver(run, binp, scns, name, testname="TestScenarios", extra_env=None):
                     a["numTxt"] = NOT_NUMBERS[(h // 4) % len(NOT_NUMBERS)] if nn and h % 4 in (1, 2) else ""
                     # the same message written differently (an unknown field, header fields in another order): one in four valid ones
                     if "extra" not in a:
-                        a["extra"] = 1 + (h // 8) % 8 if (not nn and a.get("integ", "none") == "none" and a.get("sq", "ok") == "ok" and h % 4 == 3) else 0
+                        a["extra"] = 1 + (h // 8) % 9 if (not nn and a.get("integ", "none") == "none" and a.get("sq", "ok") == "ok" and h % 4 == 3) else 0
+            # deployment options that must make no difference: a non-strict unmarshaller, a store that answers with nothing instead
+            # of an error (a third of the scenarios each)
+            if isinstance(sc.get("cfg"), dict):
+                hc = zlib.crc32(("%s/deploy" % sc.get("id")).encode())
+                sc["cfg"].setdefault("nonStrict", hc % 3 == 0)
+                sc["cfg"].setdefault("laxStore", (hc // 3) % 3 == 0)
             f.write(json.dumps(sc) + "\n")
     shards = min(NCPU, max(1, len(scns) // 20))
     procs = []
